@@ -578,9 +578,16 @@ Fixpoint pkts_of_sx (l : list sx) : option (list pkt) :=
               | Some p, Some ps => Some (p :: ps) | _, _ => None end
   end.
 
+(* the payload of a command carried in message type mt: the AMF3 carriers (17, 15) put one
+   format byte 0 before the AMF0 body *)
+Definition carried (mt : N) (body : bytes) : bytes :=
+  if (mt =? mtAMF3Command) || (mt =? mtAMF3Data) then 0 :: body else body.
+
 (* history between two endpoints 0 and 1, each with its own table.
    event (0 dir pkt): endpoint dir writes pkt (WritePacket: registers), the peer reads and decodes it
    event (1 dir mtype xpayload): a raw message is decoded by the peer of dir
+   event (2 dir mtype pkt): the command pkt carried in message type mtype (WriteMessage: not
+                            registered), read and decoded by the peer
    observation per event: (<decode obs> <table of endpoint 0> <table of endpoint 1>) *)
 Definition hist_step (st : tx * tx) (e : sx) : option ((tx * tx) * sx) :=
   let (t0, t1) := st in
@@ -601,6 +608,14 @@ Definition hist_step (st : tx * tx) (e : sx) : option ((tx * tx) * sx) :=
       let (ts, tr) := if Z.eqb dir 0 then (t0, t1) else (t1, t0) in
       let (r, tr') := decode_message tr (Z.to_N mt) pl in
       fin dir ts tr' r
+  | SL [SZ 2%Z; SZ dir; SZ mt; p] =>
+      match pkt_of_sx p with
+      | Some k =>
+          let (ts, tr) := if Z.eqb dir 0 then (t0, t1) else (t1, t0) in
+          let (r, tr') := decode_message tr (Z.to_N mt) (carried (Z.to_N mt) (marshal k)) in
+          fin dir ts tr' r
+      | None => None
+      end
   | _ => None
   end.
 
